@@ -76,6 +76,8 @@ def stage_may_queue():
     insert_before(S, 'backoff.spin();', '#[cfg(may_verif)]\ncrate::verif::spin_hint();', all_=True)
     insert_before(S, 'std::thread::sleep(std::time::Duration::from_millis(10));',
                   '#[cfg(may_verif)]\nif crate::verif::spin_wait() {\n    continue;\n}', all_=True)
+    insert_before(S, 'std::thread::sleep(std::time::Duration::from_millis(10));', '#[cfg(may_verif)]\ncrate::verif::label("spmc.pop.wait_claimed", 0);', count=1)
+    insert_before(S, 'std::thread::sleep(std::time::Duration::from_millis(10));', '#[cfg(may_verif)]\ncrate::verif::label("spmc.bulk_pop.wait_claimed", 0);', count=1, skip=1)
     # the Err arm of bulk_pop has no backoff
     s = rd(S)
     old = """                Err(i) => {
